@@ -60,6 +60,11 @@ const defaultHitForPassSeconds = 300
 var ErrInvalidStoreData = errors.New("data of store is invalid")
 
 type (
+	// waitResult the result for the requests which are waiting for fetching
+	waitResult struct {
+		status   Status
+		response *HTTPResponse
+	}
 	// httpCache http cache (only for same request method+host+uri)
 	httpCache struct {
 		// key the key of store data
@@ -69,7 +74,7 @@ type (
 
 		mu        *sync.RWMutex
 		status    Status
-		chanList  []chan struct{}
+		chanList  []chan waitResult
 		response  *HTTPResponse
 		createdAt int64
 		expiredAt int64
@@ -118,12 +123,11 @@ func (hc *httpCache) Get() (status Status, response *HTTPResponse) {
 	// 如果done不为空，表示需要等待确认当前请求状态
 	if done != nil {
 		// TODO 后续再考虑是否需要添加timeout（proxy部分有超时，因此暂时可不添加)
-		<-done
-		// 完成后重新获取当前状态与响应
-		// 此时状态只可能是hit for pass 或者 hit
-		// 而此两种状态的数据缓存均不会立即失效，因此可以从hc中获取
-		status = hc.status
-		response = hc.response
+		// 完成后的状态与响应通过chan返回（只可能是hit for pass 或者 hit），
+		// 不能再从hc中读取，因为此时未持有锁，缓存有可能已过期并被其它请求重置
+		result := <-done
+		status = result.status
+		response = result.response
 	}
 	return
 }
@@ -227,7 +231,7 @@ func (hc *httpCache) saveToStore() (err error) {
 	return hc.store.Set(hc.key, data, ttl)
 }
 
-func (hc *httpCache) get() (status Status, done chan struct{}, data *HTTPResponse) {
+func (hc *httpCache) get() (status Status, done chan waitResult, data *HTTPResponse) {
 	now := nowUnix()
 	// 如果首次创建并且设置store
 	if hc.status == StatusUnknown {
@@ -252,13 +256,13 @@ func (hc *httpCache) get() (status Status, done chan struct{}, data *HTTPRespons
 	// 如果是fetching，则相同的请求需要等待完成
 	// 通过chan返回完成
 	if hc.status == StatusFetching {
-		done = make(chan struct{})
+		done = make(chan waitResult)
 		hc.chanList = append(hc.chanList, done)
 	}
 
 	if hc.status == StatusUnknown {
 		hc.status = StatusFetching
-		hc.chanList = make([]chan struct{}, 0, 5)
+		hc.chanList = make([]chan waitResult, 0, 5)
 	}
 
 	status = hc.status
@@ -283,7 +287,9 @@ func (hc *httpCache) HitForPass(ttl int) {
 	list := hc.chanList
 	hc.chanList = nil
 	for _, ch := range list {
-		ch <- struct{}{}
+		ch <- waitResult{
+			status: StatusHitForPass,
+		}
 	}
 	err := hc.saveToStore()
 	if err != nil {
@@ -309,7 +315,10 @@ func (hc *httpCache) Cacheable(resp *HTTPResponse, ttl int) {
 	list := hc.chanList
 	hc.chanList = nil
 	for _, ch := range list {
-		ch <- struct{}{}
+		ch <- waitResult{
+			status:   StatusHit,
+			response: resp,
+		}
 	}
 	err := hc.saveToStore()
 	if err != nil {
